@@ -17,6 +17,8 @@ TolOf(e) ==
    ELSE IF e.rel = "field_mie_vs_multisphere" THEN (IF Dense(e) THEN Tol_mie_multisphere_default_dense ELSE Tol_mie_multisphere_default)
    ELSE IF e.rel = "field_mie_vs_multisphere_tight" THEN (IF Dense(e) THEN Tol_mie_multisphere_tight_dense ELSE Tol_mie_multisphere_tight)
    ELSE IF e.rel = "field_mie_vs_textbook_farfield" THEN (IF BigX(e) THEN Tol_S_mie_big ELSE Tol_S_mie)
+   ELSE IF e.rel = "field_moves_with_detector" THEN Tol_field_invariance
+   ELSE IF e.rel = "field_turns_with_polarisation" THEN Tol_field_invariance
    ELSE IF e.rel = "field_finite" THEN -1
    ELSE -30000            \* unknown relation: never accepted
 Clauses(e) == [known_relation |-> TolOf(e) > -30000, within_tolerance |-> e.mb <= TolOf(e)]
